@@ -390,7 +390,7 @@ def main(argv=None):
                 jobs.append((modname, i, args.tier, seed, s, nsh, args.scale))
         viol = known_finding_lines(mod, args.tier)
         n_regress = 0
-        if viol is None:
+        if viol is None and not os.environ.get("VERIF_NO_REGRESS"):
             viol, n_regress = regress_cases(mod, args.tier)
         results = []
         if viol is None:
